@@ -60,9 +60,16 @@ def run_scenario(sc):
     b = SB(tr); b.ends = sc.get("ends", False)
     b.result_backend = RB(tr, sc.get("fail_saves", ()), sc.get("save_latency", 0.0))
     specs = sc["msgs"]
+    bar = {"n": 0, "ev": asyncio.Event(), "need": sc["A"]}
     async def atask(i):
         sp = specs[i]; tr.add("enter", i)
         try:
+            if sp.get("barrier"):
+                bar["n"] += 1
+                if bar["n"] >= bar["need"]: bar["ev"].set()
+                try: await asyncio.wait_for(bar["ev"].wait(), 50.0); tr.add("barrier_ok", i)
+                except asyncio.TimeoutError: tr.add("barrier_timeout", i)
+                return ("rv", i)
             if sp["dur"]: await asyncio.sleep(sp["dur"])
             if sp["out"] != "ret": raise EXC[sp["out"]]()
             return ("rv", i)
